@@ -669,6 +669,70 @@ def r17_corner_lines_and_shapes(idx, r):
     pairing_rule(idx, r, ["armi.reactor.components", "armi.utils.asciimaps"], 30)
 
 
+def r18_shifted_line_pitch_axes_star_args(idx, r):
+    """(a) the flats-up hex map readers shift the text line number by the trimmed corner lines; once the shifted number exists, the function
+    works with it alone - a later read of the un-shifted number (a parity test, an index) puts the rows of a map with an odd number of trimmed
+    lines on the wrong ray.  (b) GridBlueprint hands the x pitch of a Cartesian lattice to fromRectangle as the cell WIDTH and the y pitch as
+    the HEIGHT.  (c) a material's applyInputParams that accepts *args / **kwargs hands BOTH on to the base implementation it delegates to: the
+    class1/class2 blending options travel in the keywords."""
+    n = 0
+    for f in idx.module("armi.utils.asciimaps").all_funcs():
+        ps = set(f.params()[1:])
+        for st in walk_local(f.node):
+            tgt = None
+            if isinstance(st, ast.Assign) and isinstance(st.targets[0], ast.Name) and isinstance(st.value, ast.BinOp) and isinstance(st.value.left, ast.Name) and st.value.left.id in ps and "_asciiLinesOffCorner" in norm(st.value.right):
+                tgt, raw = st.targets[0].id, st.value.left.id
+            elif isinstance(st, ast.AugAssign) and isinstance(st.target, ast.Name) and st.target.id in ps and "_asciiLinesOffCorner" in norm(st.value):
+                n += 1
+                continue
+            if tgt is None or tgt == raw:
+                continue
+            n += 1
+            later = [x for x in walk_local(f.node) if isinstance(x, ast.Name) and x.id == raw and isinstance(x.ctx, ast.Load) and x.lineno > st.lineno]
+            r.require(not later, f"{f.qualname}:only-the-shifted-line-number-after-the-shift", f, node=later[0] if later else None,
+                      msg=f"`{raw}` is read again after `{tgt}` = {raw} + trimmed lines was formed: with an odd number of trimmed corner lines the row is assigned to the wrong ray and every entry of the map shifts")
+    if n < 1:
+        raise AnchorMissing("asciimaps: shift of the line number by _asciiLinesOffCorner")
+    g = idx.method("armi.reactor.blueprints.gridBlueprint.GridBlueprint", "_constructSpatialGrid")
+    fr = [c for c in iter_calls(g.node) if call_attr(c) == "fromRectangle"]
+    if len(fr) != 1:
+        raise AnchorMissing("_constructSpatialGrid: CartesianGrid.fromRectangle")
+    env = {}
+    for st in walk_local(g.node):
+        if isinstance(st, ast.Assign) and isinstance(st.targets[0], ast.Tuple) and all(isinstance(e, ast.Name) for e in st.targets[0].elts) and len(st.targets[0].elts) == 2:
+            v = st.value.body if isinstance(st.value, ast.IfExp) else st.value
+            if isinstance(v, ast.Tuple) and len(v.elts) == 2:
+                env[st.targets[0].elts[0].id], env[st.targets[0].elts[1].id] = norm(v.elts[0]), norm(v.elts[1])
+    w, h = get_arg_(fr[0], 0, "width"), get_arg_(fr[0], 1, "height")
+    wt = env.get(norm(w), norm(w)) if w is not None else ""
+    ht = env.get(norm(h), norm(h)) if h is not None else ""
+    r.require(wt.endswith(".x") and ht.endswith(".y"), "fromRectangle:x-pitch-is-the-width", g, node=fr[0],
+              msg=f"fromRectangle gets width = `{wt}` and height = `{ht}`: with a non-square lattice pitch every assembly sits at (i * y pitch, j * x pitch)")
+    k = 0
+    for f in idx.all_funcs():
+        if not f.module.name.startswith("armi.materials") or ".tests" in f.module.name or f.cls is None:
+            continue
+        a = f.node.args
+        if a.vararg is None and a.kwarg is None:
+            continue
+        for c in iter_calls(f.node):
+            if call_attr(c) == f.name and (norm(c.func).startswith("super()") or (c.args and norm(c.args[0]) == "self")):
+                k += 1
+                va = any(isinstance(x, ast.Starred) and norm(x.value) == a.vararg.arg for x in c.args) if a.vararg else True
+                kw = any(k_.arg is None and norm(k_.value) == a.kwarg.arg for k_ in c.keywords) if a.kwarg else True
+                r.require(va and kw, f"{f.cls.name}.{f.name}:star-arguments-handed-on", f, node=c,
+                          msg=f"`{norm(c)[:80]}` drops {'*' + a.vararg.arg if not va else ''}{' ' if not va and not kw else ''}{'**' + a.kwarg.arg if not kw else ''}: modifications meant for the base class (class1/class2 isotopics blending) are silently ignored for this material")
+    if k < 5:
+        raise AnchorMissing("material methods delegating with *args/**kwargs")
+
+
+def get_arg_(c, pos, name):
+    for k_ in c.keywords:
+        if k_.arg == name:
+            return k_.value
+    return c.args[pos] if pos < len(c.args) else None
+
+
 def run(idx, chk):
     chk.explanation = (
         "C18 is a relation between an input document and an object graph; static analysis claims only: (1) each lattice-map class reads and "
@@ -713,3 +777,5 @@ def run(idx, chk):
                  necessary="every specifier of the map lands on the cell drawn; objects carry the flags and nuclide options the blueprint states")
     chk.run_rule("R18.17", "trimmed corner lines are counted from the full row length; shape constructors hand each dimension on under its own name", lambda r: r17_corner_lines_and_shapes(idx, r), floor=2,
                  necessary="every entry of a lattice map lands on the cell it is drawn at; components have the cold dimensions the blueprint states")
+    chk.run_rule("R18.18", "only the shifted line number after the shift; x pitch = width, y pitch = height; materials hand *args/**kwargs on", lambda r: r18_shifted_line_pitch_axes_star_args(idx, r), floor=7,
+                 necessary="every entry of a map lands on its cell, at its place; requested material modifications reach the material")
